@@ -428,8 +428,9 @@ fn boundary_api(k: u64) -> Option<Case> {
             bm(&["pkg"], vec![bf("a", 4), bt("b", 5, true)]),
             bm(&["pkg", "m"], vec![bt("a", 6, true), bf("go", 7)]),
         ]),
-        // names that differ only in the case of their letters: equal under every case-folding
-        // sort key, so only the full key orders them
+        // names that differ only in the case of their letters, or in the leading zeros of a
+        // number: equal under a case-folding / "natural" sort key, so only the full key orders
+        // them (and a map keyed by such a key would hold one of them only)
         21 => c(case_only_names()),
         // compiler-generated functions in the table: every block's body needs `eq`/`clone`/`drop`
         // glue of a record with a string (root only; every module of a deep package; only the
@@ -446,6 +447,8 @@ fn case_only_names() -> Vec<ModGen> {
     vec![
         bm(&[], vec![bt("roundtrip", 1, true), bt("RoundTrip", 2, true), bt("ROUNDTRIP", 3, true), bt("Roundtrip", 4, true), bt("roundTrip", 5, true), bt("other", 6, true), bf("Other", 11)]),
         bm(&["m"], vec![bt("ab", 7, true), bt("aB", 8, true), bt("Ab", 9, false), bt("AB", 10, true)]),
+        // … and names that differ only in how a number is written (equal under a "natural" key)
+        bm(&["zz"], vec![bt("t_1", 12, true), bt("t_01", 13, false), bt("t_001", 14, true), bt("case7", 15, true), bt("case07", 16, true), bt("t_10", 17, true), bt("t_2", 18, true)]),
     ]
 }
 
